@@ -2,6 +2,9 @@
 From SV Require Import Base Json Discover CorrC19.
 From Coq Require Import Arith.
 
+(* keep simpl from unfolding the fuel of the path walk *)
+Local Opaque FUEL.
+
 (* ------------------------------------------------------------------ dirname shortens *)
 Definition is_prefix_of {A} (a l : list A) : Prop := exists r, l = a ++ r.
 
@@ -267,7 +270,7 @@ Proof.
   - destruct (walk FUEL rt rc [c]) as [ph|]; [|inversion M; reflexivity].
     destruct (get rt ph) as [[d|es3|t3]|]; try (inversion M; reflexivity). eauto.
   - exfalso.
-    destruct (mkdirs_fresh comps (upd (rev (c :: rc)) (Some (Dir [])) rt) (c :: rc)) as [r2 E].
+    destruct (mkdirs_fresh comps (upd (rev rc ++ [c]) (Some (Dir [])) rt) (c :: rc)) as [r2 E].
     + simpl. eapply get_upd_same. exact G.
     + rewrite E in M. discriminate.
 Qed.
@@ -366,9 +369,11 @@ Definition segs (comps : list str) : str := flat_map (fun c => SL :: c) comps.
 Lemma abs_of_segs : forall comps, comps <> [] -> abs_of comps = segs comps.
 Proof.
   unfold abs_of. induction comps as [|c comps IH]; intro H; [congruence|].
-  simpl. destruct comps as [|c2 comps']; [simpl; rewrite app_nil_r; reflexivity|].
-  f_equal. f_equal. assert (E : c2 :: comps' <> []) by discriminate. specialize (IH E).
-  inversion IH. simpl. reflexivity.
+  destruct comps as [|c2 comps']; [simpl; rewrite app_nil_r; reflexivity|].
+  assert (E : c2 :: comps' <> []) by discriminate. specialize (IH E).
+  change (join_sl (c :: c2 :: comps')) with (c ++ SL :: join_sl (c2 :: comps')).
+  change (segs (c :: c2 :: comps')) with (SL :: c ++ segs (c2 :: comps')).
+  rewrite <- IH. reflexivity.
 Qed.
 
 Lemma is_hex_SL : is_hex SL = false.
@@ -380,7 +385,7 @@ Proof.
   induction a as [|c a IH]; intros r pos b; simpl.
   - replace (pos + 0 + 1)%nat with (S pos) by lia. reflexivity.
   - destruct (is_hex c).
-    + destruct (Nat.eqb (S r) 32).
+    + destruct (Nat.eqb r 31).
       * simpl. rewrite IH. do 3 f_equal. lia.
       * rewrite IH. do 2 f_equal. lia.
     + rewrite IH. do 2 f_equal. lia.
@@ -390,7 +395,7 @@ Lemma id_ends_shift : forall s r pos k, id_ends r (pos + k) s = map (fun e => (e
 Proof.
   induction s as [|c s IH]; intros r pos k; simpl; [reflexivity|].
   destruct (is_hex c).
-  - destruct (Nat.eqb (S r) 32); simpl.
+  - destruct (Nat.eqb r 31); simpl.
     + f_equal. apply (IH 0%nat (S pos) k).
     + apply (IH (S r) (S pos) k).
   - apply (IH 0%nat (S pos) k).
@@ -409,8 +414,8 @@ Proof.
   induction c as [|x c IH]; intros r pos H L P; simpl in *; [lia|].
   apply andb_true_iff in H. destruct H as [Hx Hc]. rewrite Hx.
   destruct c as [|y c'].
-  - simpl in L. assert (E : Nat.eqb (S r) 32 = true) by (apply Nat.eqb_eq; lia). rewrite E. simpl. f_equal. lia.
-  - assert (E : Nat.eqb (S r) 32 = false) by (apply Nat.eqb_neq; simpl in L; lia). rewrite E.
+  - simpl in L. assert (E : Nat.eqb r 31 = true) by (apply Nat.eqb_eq; lia). rewrite E. simpl. f_equal. lia.
+  - assert (E : Nat.eqb r 31 = false) by (apply Nat.eqb_neq; simpl in L; lia). rewrite E.
     rewrite IH; auto; simpl in *; try lia. f_equal. lia.
 Qed.
 
@@ -423,15 +428,19 @@ Qed.
 Lemma id_ends_segs_norun : forall post pos, (forall c, In c post -> has_run c = false) ->
   id_ends 0 pos (segs post) = [].
 Proof.
-  induction post as [|c post IH]; intros pos H; simpl; [reflexivity|].
+  induction post as [|c post IH]; intros pos H; [reflexivity|].
+  change (segs (c :: post)) with (SL :: (c ++ segs post)).
+  change (id_ends 0 pos (SL :: c ++ segs post)) with (id_ends 0 (S pos) (c ++ segs post)).
   destruct post as [|c2 post'].
   - simpl. rewrite app_nil_r. apply id_ends_norun. apply H. simpl; auto.
   - change (segs (c2 :: post')) with (SL :: (c2 ++ segs post')).
-    rewrite id_ends_app_sl. rewrite (id_ends_norun c); [|apply H; simpl; auto]. simpl.
-    specialize (IH (pos + 1 + length c)%nat). simpl in IH.
+    rewrite id_ends_app_sl. rewrite (id_ends_norun c); [|apply H; simpl; auto].
     assert (Hp : forall c0, In c0 (c2 :: post') -> has_run c0 = false) by (intros; apply H; simpl; auto).
-    specialize (IH Hp). replace (S (pos + 1 + length c)) with (S (S pos + length c)) in IH by lia.
-    replace (S pos + length c + 1)%nat with (S (S pos + length c)) by lia. exact IH.
+    pose proof (IH (S pos + length c)%nat Hp) as Z.
+    change (segs (c2 :: post')) with (SL :: (c2 ++ segs post')) in Z.
+    change (id_ends 0 (S pos + length c) (SL :: c2 ++ segs post'))
+      with (id_ends 0 (S (S pos + length c)) (c2 ++ segs post')) in Z.
+    replace (S pos + length c + 1)%nat with (S (S pos + length c)) by lia. exact Z.
 Qed.
 
 Lemma segs_app : forall a b, segs (a ++ b) = segs a ++ segs b.
